@@ -123,7 +123,7 @@ CLAIMED = {
             "under the sampler map): 4-uniform Laplace identity, (N1+N2)/sqrt2, sum of four Gamma(d/4), rejection = conditional "
             "law, CKS acceptance; additivity/input-independence/linearity; post-processing + scripted-stream correspondence on "
             "both RNG back-ends; statistical validation (DKW 1e-14) as supporting evidence",
-            "Machine-checked (72 theorems): the Holohan-Braghin identity — log(1-U1)cos(pi U2) + log(1-U3)cos(pi U4) pushed "
+            "Machine-checked (81 theorems): the Holohan-Braghin identity — log(1-U1)cos(pi U2) + log(1-U3)cos(pi U4) pushed "
             "forward from the uniform measure on [0,1)^4 IS the standard Laplace law (characteristic functions: each term "
             "has 1/sqrt(1+t^2), uniqueness from charFun), hence Laplace.randomise on four uniforms has law "
             "Laplace(x, sens/(eps-log(1-delta))), the truncated/folded mechanisms are that law pushed through truncate/fold, "
@@ -135,7 +135,7 @@ CLAIMED = {
             "passes: probability e^{-y^2/2 sigma^2}/sum); -log(1-U) ~ Exp(1); threshold/uniform laws; CKS acceptance identity "
             "and bernoulli_neg_exp stop law; staircase segment/mixture density; randomise x s - x is the same function of the "
             "stream for all x and linear in the calibrated scale; truncation/folding/snapping are post-processing by maps of "
-            "the bounds only. Over the i.i.d. UNIFORM stream measure (Measure.infinitePi unif01; machinery shared with C01): the discrete-Gaussian CKS loop - geometric count law, one-pass law, renewal identity, the unbounded loop returns y with probability EXACTLY e^{-y^2/2 sigma^2}/sum, the fuelled model refines it and conversely for all large fuels (cks_loop_law_full: mu ret <= dG <= mu ret + mu abort; cks_growing_fuel_law); the batch layout of the rejection loops (sample i of a batch of s reads uniforms i, s+i, 2s+i, 3s+i) is injective and turns the uniform stream into an i.i.d. Laplace candidate stream, so the bounded-domain / bounded-noise samplers in the code's own consumption order have the conditioned Laplace law and satisfy C02's (eps,delta) inequality (boundedDomain_sampler_dp, boundedNoise_sampler_dp); Snapping with a fair bit and a continuous uniform: sign*log U is Laplace, round-half-up cells, released grid pmf, pure eps_eff-DP in exact arithmetic (not Mironov's floating-point theorem). REMAINING: no explicit bound on P[abort] for the model's fixed inner fuels; that the dyadic uniform of the snapping sampler is the round-down of a continuous one; sphere uniformity is proved under C17, not restated here; Bingham's acceptance ratio is inverted (proved: bingham_accept_cex; open finding). Tied to the code by running every randomise on scripted streams against the driver on BOTH back-ends "
+            "the bounds only. Over the i.i.d. UNIFORM stream measure (Measure.infinitePi unif01; machinery shared with C01): the discrete-Gaussian CKS loop - geometric count law, one-pass law, renewal identity, the unbounded loop returns y with probability EXACTLY e^{-y^2/2 sigma^2}/sum, the fuelled model refines it and conversely for all large fuels (cks_loop_law_full: mu ret <= dG <= mu ret + mu abort; cks_growing_fuel_law); the batch layout of the rejection loops (sample i of a batch of s reads uniforms i, s+i, 2s+i, 3s+i) is injective and turns the uniform stream into an i.i.d. Laplace candidate stream, so the bounded-domain / bounded-noise samplers in the code's own consumption order have the conditioned Laplace law and satisfy C02's (eps,delta) inequality (boundedDomain_sampler_dp, boundedNoise_sampler_dp); Snapping with a fair bit and a continuous uniform: sign*log U is Laplace, round-half-up cells, released grid pmf, pure eps_eff-DP in exact arithmetic (not Mironov's floating-point theorem). QUANTITATIVE fuel bound (cks_abort_bound, cks_loop_law_quantitative): P[abort] <= (4096 tau^64/64! + e^{-4096 tau} + e^{e-4096}) / ((1-e^{-tau}) (1/2) e^{-tau^2 sigma^2/2}) for the model's fixed fuels 64/4096/4096 (< 1e-6 at scale 1; honest, not small for large scales where the geometric cap is really reached), with per-component bounds cks_coin_fuel_bound, cks_geometric_cap_bound; the snapping sampler's dyadic uniform (52 mantissa bits + geometric exponent from 32-bit words) is proved to be the ROUND-DOWN of a continuous uniform to the floating-point grid, exponent cap explicit (snap_uniform_closed_form, snap_round_down_grid, snap_uniform_law). REMAINING: composing that with the log step and the floating-point evaluation of log (Mironov's theorem is cited); sphere uniformity is proved under C17, not restated here; Bingham's acceptance ratio is inverted (proved: bingham_accept_cex; open finding). Tied to the code by running every randomise on scripted streams against the driver on BOTH back-ends "
             "(SystemRandom script and numpy RandomState script; outputs and numbers of draws consumed), live-object sequences, "
             "repeated evaluation of released functions; statistical law tests at the DKW 1e-14 level are supporting evidence.",
             "Trusted: Lean kernel + Mathlib; library primitives (random() uniform, normalvariate/standard_normal normal, "
@@ -176,22 +176,31 @@ CLAIMED = {
             "Trusted: Lean kernel + Mathlib; numpy statistics and bin assignment; the reshape of n-d arrays to records x cells "
             "in the harness; sequential/parallel composition cited.", "§6 C07"),
     "C08": ("Lean 4 proof: compositional privacy-loss calculus on release plans, per-estimator model_privloss, split identities "
-            "and sensitivity lemmas + trace correspondence with replayed outputs and direct loss accounting on the implementation",
+            "and sensitivity lemmas, and adaptive sequential composition over Markov kernels (bounded trace loss => the output "
+            "LAW of the plan is eps-DP on every measurable set; StandardScaler end to end with Laplace kernels) + trace correspondence with replayed outputs and direct loss accounting on the implementation",
             "Machine-checked over R for every dataset, every single-record replacement and every forced-output sequence: "
             "GaussianNB (<= eps, <= 2 eps on a label change), KMeans with _calc_iters/_split_epsilon as coded (<= 2 eps; <= eps "
             "when the record stays in its cluster), LinearRegression with/without intercept and multi-target (<= eps), "
             "StandardScaler (<= eps, list-level variance sensitivity as hypothesis), PCA (<= eps relative to the cited "
             "eigenvalue/Bingham hypotheses); all epsilon-split identities; corner-product, square, shifted-square, squared-"
             "deviation, group-change and count sensitivities; disjoint tree subsets and leaf counts; the pre-repair formulas "
-            "are proved to exceed the budget (regression witnesses). PARTIAL: forest (counting level), LogisticRegression "
-            "(split only; mechanism is C17), adaptive composition cited. Tied to the code by fitting each model for real with "
+            "are proved to exceed the budget (regression witnesses). ADAPTIVE COMPOSITION is now a theorem (DPL/Proofs/ModelsCompose*.lean): "
+            "adaptive_composition_pure (mu<=e^e1 mu', kappa<=e^e2 kappa' => mu(x)kappa <= e^(e1+e2) mu'(x)kappa' on every "
+            "measurable set of the product), its bind and n-fold list forms; a measure semantics Plan.law for release plans "
+            "(dirac / Measure.bind), and plan_dp_of_lossLe: metric-DP kernels + the existing bound 'trace loss <= B for every "
+            "forced-output sequence' + agreeing probes => law p D S <= e^B law p D' S; instantiated hypothesis-free for "
+            "StandardScaler with truncated-Laplace kernels (scaler_fit_dp_laplace, via C02's density ratio) and for GaussianNB "
+            "(gnb_fit_dp, lower-integral form). PARTIAL: forest (counting level), LogisticRegression (split only; mechanism is "
+            "C17); KMeans / LinearRegression / PCA have the loss bound but not yet the law-level corollary. Tied to the code by fitting each model for real with "
             "recording and running the Lean plan on the same data with the recorded outputs forced (classes/counts exact, "
             "parameters and inputs 1e-9); the property is checked directly on the implementation by pairing the invocations "
             "of fits on neighbouring datasets under identical forced outputs.",
-            "Trusted: Lean kernel + Mathlib; cited: eigenvalue perturbation bound, Bingham's guarantee, adaptive composition; "
+            "Trusted: Lean kernel + Mathlib; cited: eigenvalue perturbation bound, Bingham's guarantee; "
             "numpy tie order in argsort (GaussianNB count repair) excludes a third of fits from the trace comparison.",
             "§6 C08"),
-    "C09": ("Lean 4 proof: charge-once theorems for scalar, multi-cell and nested multi-quantile queries and for model fits over "
+    "C09": ("Lean 4 proof: soundness of a charge-skeleton checker (every accepted path is resolve*, check(e,d), noise only, "
+            "spend(e,d), exit — or refused / delegated / per-cell) with the skeleton of all 36 tool and estimator entry points "
+            "regenerated from the Python sources on every run (translator) and decided in Lean; charge-once theorems for scalar, multi-cell and nested multi-quantile queries and for model fits over "
             "the accountant machine (control flow for any carrier) + scenario correspondence and before/after totals of all "
             "live accountants",
             "Machine-checked, for ANY carrier (so also for doubles): a scalar query either passes its check and appends "
@@ -263,7 +272,10 @@ CLAIMED = {
             "Trusted: Lean kernel; the chain extractor (harness/translate/chains.py); structured arguments (labels, utility "
             "lists) abstracted to one flag per test; NaN in parameters the property does not list (Vector alpha, clip norm, "
             "bounds) is reported, not counted.", "§6 C13"),
-    "C14": ("Lean 4 proof: decision table of check_random_state and provenance of every noise draw per entry point + rng-class "
+    "C14": ("Lean 4 proof: randomness-site table (every check_random_state call, global-generator use, draw with the origin of "
+            "its generator, random_state hand-over) regenerated from the Python sources on every run (translator) and decided "
+            "in Lean against the hand tables (8 obligations: no global draw, mechanisms draw only through a securely obtained "
+            "_rng, non-secure draws are exactly the structural sites, hand-overs stay in {None, singleton, SystemRandom}); decision table of check_random_state and provenance of every noise draw per entry point + rng-class "
             "interposition and global-seed experiments",
             "Machine-checked: the decision table of check_random_state(seed, secure); no mechanism ever holds numpy's global "
             "generator; any depth of tool/sub-estimator nesting below random_state=None ends in the OS CSPRNG (a fresh "
@@ -288,14 +300,20 @@ CLAIMED = {
             "Trusted: Lean kernel + Mathlib; MT19937 determinism and seed sensitivity; joblib's ordered collection and absence "
             "of shared mutable state in sklearn/numpy; the child-interpreter shim.", "§6 C15"),
     "C16": ("Lean 4 proof: refinement of the _default/old_default machine to a stack for every well-bracketed program + "
-            "program-level correspondence with real `with` blocks",
+            "program-level correspondence with real `with` blocks + scoping-method IR regenerated from the Python source on "
+            "every run (translator) and proved to be the model's machine",
             "Machine-checked (core Lean, no Mathlib): the faithful machine (class attribute _default, per-instance "
             "old_default, lazily created default) refines a stack of defaults for every well-bracketed program over "
             "distinct accountants incl. exits by exception (scope_refines_stack), hence exit restores the previous "
             "default, explicit accountants win, calls inside a block charge that block's accountant; re-entering the same "
             "accountant is proved to break restoration (why distinctness is a hypothesis). Tied to the code by executing "
             "generated programs with real BudgetAccountant objects and comparing charged accountant / default identity "
-            "after every event with both the model and a stack oracle.",
+            "after every event with both the model and a stack oracle; and statically: the bodies of __enter__, __exit__, "
+            "set_default, pop_default and load_default are re-read from /repo's AST on every run, emitted as terms of a small "
+            "imperative IR (DPL/Model/ScopeIR.lean) and the generated obligations prove that its interpreter run on them IS "
+            "enterI / exitI / stepI (7 obligations incl. 'no other writer of _default/old_default' and '_default = None'); "
+            "with_block_via_ir, exit_never_swallows and three counter-example theorems show what the contracts buy and that "
+            "they discriminate.",
             "Trusted: Lean kernel; hand-written model tied by sampled correspondence; CPython's `with` protocol.", "§6 C16"),
     "C20": ("Lean 4 proof: soundness of an alias/heap check over every execution order + alias IR regenerated from the "
             "Python sources on every run (translator) and decided in Lean; bitwise-snapshot experiment on the implementation",
